@@ -280,3 +280,61 @@ def rule_replay_arms(prog):
                      "was recorded and time-sensitive mappings (tap-dance, tap-hold) replay differently from how they were typed"
                      % (v, "loads" if sp else "does not load", "does" if sr else "does not"))
     return res
+
+
+def rule_play_guard(prog):
+    """R-DM-PLAY-GUARD (C19): `dynamic-macro-play N` is ignored while macro N is being recorded, and tap events are recorded.
+
+    (a) The replay of a recording refuses a play item of its own id as a recursion. If the play key is honoured while
+    that id is being recorded (it replays the previous recording), typing and replaying differ. The play_macro call of
+    the DynamicMacroPlay arm must depend on a look at the recording state (is_recording_macro).
+    (b) Every arm of handle_input_event that feeds a Press to the layout records it first (the Tap arm - mouse wheel
+    notches - used not to)."""
+    from kq.analysis import dependence_slice
+    res = RuleResult("R-DM-PLAY-GUARD", "play of the macro being recorded is ignored; every input press is recorded", floor=2)
+    h = prog.fn_opt("kanata_state_machine::kanata::Kanata::handle_keystate_changes")
+    ev = prog.fn_opt("kanata_state_machine::kanata::Kanata::handle_input_event")
+    if h is None or ev is None:
+        res.viol("anchor", "src/kanata/mod.rs", "handle_keystate_changes / handle_input_event not found")
+        return res
+    res.fn(h)
+    res.fn(ev)
+    plays = [bi for bi, t in h.calls() if (callee_name(t) or "").endswith("dynamic_macro::play_macro")]
+    ok = bool(plays)
+    for b in plays:
+        cal = dependence_slice(h, b)[1]
+        if not any(c.split("::")[-1] == "is_recording_macro" for c in cal):
+            ok = False
+    res.inst("play-guarded-by-recording-state", where=h.loc, play_calls=len(plays), ok=ok)
+    res.oblige(ok)
+    if not ok:
+        res.viol("play-guarded-by-recording-state", h.loc,
+                 "the DynamicMacroPlay arm calls play_macro without asking whether that macro is being recorded (is_recording_macro): while "
+                 "macro N is recorded again, its play key replays the previous recording; the new recording contains the play key, which its "
+                 "own replay refuses as a recursion - replaying differs from what was typed")
+    # (b)
+    rec = [bi for bi, t in ev.calls() if (callee_name(t) or "").endswith("dynamic_macro::record_press")]
+    presses = []
+    for bi, t in ev.calls():
+        if (callee_name(t) or "").split("::")[-1] == "event" and len(t["args"]) > 1 and is_place_(t["args"][1]):
+            d = ev.single_def(t["args"][1]["l"])
+            if d and d[2] == "assign" and d[3]["k"] == "agg" and d[3].get("v") == "Press":
+                presses.append(bi)
+            elif d and d[2] == "assign" and d[3]["k"] == "use":
+                # the joined `kbrn_ev` of the Press / Release arms: look at what flows in
+                for (db, di, kind, payload) in ev.defs().get(d[3]["a"]["l"], []) if isinstance(d[3]["a"], dict) and "l" in d[3]["a"] else []:
+                    if kind == "assign" and payload["k"] == "agg" and payload.get("v") == "Press":
+                        presses.append(db)
+    okb = bool(presses) and all(any(ev.dominates(r, p_) for r in rec) for p_ in presses)
+    res.inst("every-press-recorded", where=ev.loc, press_sites=len(presses), record_calls=len(rec), ok=okb)
+    res.oblige(okb)
+    if not okb:
+        res.viol("every-press-recorded", ev.loc,
+                 "handle_input_event feeds a Press to the layout on a path that does not pass record_press first (%d press sites, %d "
+                 "record_press calls): input that arrives as a tap event (a notch of a remapped mouse wheel) is missing from dynamic "
+                 "macro recordings" % (len(presses), len(rec)))
+    return res
+
+
+def is_place_(o):
+    return isinstance(o, dict) and "l" in o and not o.get("pr")
